@@ -249,14 +249,18 @@ class OrderedCadence(Cadence):
         self._check(v)
         if i < 0:
             i = len(self) + i
+        if not 0 <= i < len(self):
+            raise IndexError("cadence assignment index out of range")
         if "order_label" not in v.metadata:
             v.add_metadata({"order_label": self.order[i]})
         self.frames[i] = v
 
     def insert(self, i, v):
         self._check(v)
+        # Clamp as list.insert does, so the label is that of the final position
         if i < 0:
-            i = len(self) + i
+            i = max(len(self) + i, 0)
+        i = min(i, len(self))
         if "order_label" not in v.metadata:
             v.add_metadata({"order_label": self.order[i]})
         self.frames.insert(i, v)
